@@ -2,6 +2,7 @@
    (fkey (-x) = - fkey x exactly, Base/F64.v), for ALL populations and tie patterns. *)
 From Coq Require Import ZArith List Bool Arith Permutation.
 From HV Require Import Ord ListX Sprout SproutFacts Select SelectFacts FilterFacts.
+From HV Require GenOrder GenEquivOrder F64 WMonad.
 Import ListNotations.
 Local Open Scope Z_scope.
 
@@ -37,3 +38,14 @@ Print Assumptions C13_level_limit.
 Example C13_example : best_of true [3; 9; 9; 1] = Some 9 /\ best_of false (neg [3; 9; 9; 1]) = Some (-9) /\
   de_select true [5; 1] [5; 2] = [5; 2] /\ de_select false [-5; -1] [-5; -2] = [-5; -2].
 Proof. vm_compute. repeat split. Qed.
+
+(* ---------------------------------------------------------------- Individual's ordering, TRANSLATED from the current pyhms/core/individual.py
+   (Gen/GenOrder.v: @total_ordering over __lt__ = problem.worse_than(fitnesses), __eq__ = problem.equivalent(fitnesses)): the ordering is the same relation for both directions up to swapping the arguments of < on the fitness *)
+Theorem C13_translated_individual_gt mx (a b : WMonad.F) : F64.fis_nan a = false -> F64.fis_nan b = false ->
+  GenOrder.gen_ind_gt mx a b = if mx then F64.flt b a else F64.fgt b a.
+Proof. exact (GenEquivOrder.ind_gt_is_strictly_better mx a b). Qed.
+Print Assumptions C13_translated_individual_gt.
+Theorem C13_translated_individual_gt_asymmetric mx (a b : WMonad.F) : F64.fis_nan a = false -> F64.fis_nan b = false ->
+  GenOrder.gen_ind_gt mx a b = true -> GenOrder.gen_ind_gt mx b a = false.
+Proof. exact (GenEquivOrder.ind_gt_asymmetric mx a b). Qed.
+Print Assumptions C13_translated_individual_gt_asymmetric.
